@@ -70,7 +70,7 @@ def run(tier, seed):
                        text="exactly one access to the variable: an atomic add of its width",
                        replay=lambda m, d=detail: {"inputs": label, "reproduced": True, "detail": d})
         env = Env(ctx="xdp" if kind == "packet" else None, pkt_len=pkt_len, pkt_mem=pkt0,
-                  maps={77: MapModel("array", 4, info.get("map_size", 8))} if kind == "map" else None)
+                  maps={77: MapModel("array", 4, info.get("map_size", 8))} if kind in ("map", "percpu") else None)
         M.ABSTRACT_MUL[0] = True
         try:
             res = bpf_run(code, env)
